@@ -230,3 +230,201 @@ Example C13_early_within_rounding :
   replay rnd64 7 [AuditExamplesB.C13.a57] 8 = at_tick 5 8 /\
   replay exact 7 [AuditExamplesB.C13.a57] 8 = at_tick 6 8.
 Proof. destruct AuditExamplesB.C13.early_by_one as (A & B & C & D & E). repeat split; assumption. Qed.
+
+(* ------------------------------------------------------------------------------------------------
+   Part 5. Replaying a FILE:  eudoxia run -w trace.csv.
+   [file_replay_with rnd tps n rows] (Model/TraceFile.v) is WorkloadTrace(CSVWorkloadReader(rows), tps) driven by n
+   calls of run_one_tick: the lazy generators and the one-batch look-ahead of Model/CsvLazy.v ([wt_replay], C14) with
+   the abstract readiness predicate instantiated by the real test get_next_batch_tick() <= current_tick, computed
+   with the very definitions of Model/Trace.v ([tick_length], [next_batch_tick], [batch_arrival]); [file_replay] is
+   [rnd := rnd64]. The answer is (what each call that returned returned, each pipeline with its pipeline_id token;
+   the exception if the constructor or a call raised); [file_refusal_at] says where it came out.
+   [read_rows_c rows] is the eager reader of C14 (inr ps: accepted, the pipelines; inl e: refused);
+   [file_pipelines rows ps] pairs ps with their pipeline_id tokens; [select l is] = the elements of l at the
+   positions is; [good_prefix rows] = the rows of the pipelines before the first refused one;
+   [file_tick rnd tps a] = max 0 (ceil (rnd (arrival / rnd (1 / tps)))), the tick of C13_float_tick. *)
+From Eudoxia Require Import Model.Types Model.Timing Model.Csv Model.CsvLazy Model.TraceFile Proofs.CsvLazyFacts Proofs.TraceFileFacts.
+Close Scope Q_scope.
+Close Scope Z_scope.
+
+(* (a) an accepted file, rows in any order, any rounding: the replay of the file IS the replay of part 1-4 on the
+   arrival column the eager reader returns, call by call, read as positions in the file; and no call raises *)
+Theorem C13_file_replay_is_replay : forall (rnd : Q -> Q) tps n rows ps, read_rows_c rows = inr ps ->
+  file_replay_with rnd tps n rows =
+    (map (select (file_pipelines rows ps)) (replay rnd tps (map pm_arr ps) n), None).
+Proof. exact TraceFileFacts.file_replay_is_replay. Qed.
+Print Assumptions C13_file_replay_is_replay.
+
+(* hence the theorems of parts 1-4, for files. C13_once_in_file_order / C13_one_answer_per_tick: every pipeline
+   at most once, in file order, nobody skipped, one answer per call, never an exception *)
+Theorem C13_file_once_in_file_order : forall (rnd : Q -> Q) tps n rows ps, read_rows_c rows = inr ps ->
+  exists m, m <= length ps /\
+    concat (fst (file_replay_with rnd tps n rows)) = firstn m (file_pipelines rows ps) /\
+    snd (file_replay_with rnd tps n rows) = None /\
+    length (fst (file_replay_with rnd tps n rows)) = n.
+Proof. exact TraceFileFacts.file_once_in_file_order. Qed.
+Print Assumptions C13_file_once_in_file_order.
+
+(* C13_float_tick: rows in arrival order; call t returns EXACTLY the pipelines of the file whose tick is t, in file
+   order - so each pipeline is returned by exactly one call if the run is long enough, never before the first tick
+   t with rnd64 (a / rnd64 (1 / tps)) <= t, in that very tick, and pipelines with equal arrival keep their file order *)
+Theorem C13_file_float_tick : forall tps n rows ps, (0 < tps)%Z ->
+  read_rows_c rows = inr ps -> StronglySorted Qle (map pm_arr ps) ->
+  forall t, t < n ->
+    nth t (fst (file_replay tps n rows)) [] =
+      filter (fun a => file_tick rnd64 tps a =? Z.of_nat t)%Z (file_pipelines rows ps).
+Proof. exact TraceFileFacts.file_float_tick. Qed.
+Print Assumptions C13_file_float_tick.
+
+Theorem C13_file_float_tick_any_rounding : forall (rnd : Q -> Q),
+  (forall x y, (x <= y)%Q -> (rnd x <= rnd y)%Q) ->
+  (forall x, (Qabs (rnd x - x) <= Qabs x * (1 # 9007199254740992))%Q) ->
+  forall tps, (0 < tps)%Z -> forall n rows ps,
+  read_rows_c rows = inr ps -> StronglySorted Qle (map pm_arr ps) ->
+  forall t, t < n ->
+    nth t (fst (file_replay_with rnd tps n rows)) [] =
+      filter (fun a => file_tick rnd tps a =? Z.of_nat t)%Z (file_pipelines rows ps).
+Proof. exact TraceFileFacts.file_float_tick_any_rounding. Qed.
+Print Assumptions C13_file_float_tick_any_rounding.
+
+(* C13_replay_spec_any_sign: the exact specification delivers in tick ceil(a * tps) (tick 0 before time 0) *)
+Theorem C13_file_spec_tick : forall tps n rows ps, (0 < tps)%Z ->
+  read_rows_c rows = inr ps -> StronglySorted Qle (map pm_arr ps) ->
+  forall t, t < n ->
+    nth t (fst (file_replay_with exact tps n rows)) [] =
+      filter (fun a => Z.max 0 (ceilQ (pm_arr (snd a) * inject_Z tps)) =? Z.of_nat t)%Z (file_pipelines rows ps).
+Proof. exact TraceFileFacts.file_spec_tick. Qed.
+Print Assumptions C13_file_spec_tick.
+
+(* C13_float_window: the code never delivers before ceil(a tps (1 - 4*2^-53)) nor after ceil(a tps (1 + 4*2^-53)) *)
+Theorem C13_file_float_window : forall tps n rows ps, (0 < tps)%Z ->
+  read_rows_c rows = inr ps -> StronglySorted Qle (map pm_arr ps) ->
+  forall t a, In a (nth t (fst (file_replay tps n rows)) []) -> (0 <= pm_arr (snd a))%Q ->
+    (ceilQ (pm_arr (snd a) * inject_Z tps * (1 - (4 # 9007199254740992))) <= Z.of_nat t
+     <= ceilQ (pm_arr (snd a) * inject_Z tps * (1 + (4 # 9007199254740992))))%Z.
+Proof. exact TraceFileFacts.file_float_window. Qed.
+Print Assumptions C13_file_float_window.
+
+(* (b) a refused file. Its longest well-formed prefix [good_prefix rows] is an accepted file; the next pipeline of
+   the file, [bad], is the first one create_pipeline_from_batch refuses; batch_by_pipeline delivers exactly the
+   pipelines of the prefix before it raises, and batch_by_arrival all their arrival batches but the last one (C14) *)
+Theorem C13_file_malformed_prefix : forall rows e, read_rows_c rows = inl e ->
+  exists ps rest bad,
+    rows = good_prefix rows ++ rest /\
+    read_rows_c (good_prefix rows) = inr ps /\
+    nth_error (batches rows) (length ps) = Some bad /\ create_pipeline bad = inl e /\
+    (forall b t, rest = b :: t -> exists t', bad = b :: t') /\
+    lazy_arrivals rows = (file_pipelines (good_prefix rows) ps, Some e) /\
+    lazy_batches rows = (removelast (arrival_groups (file_pipelines (good_prefix rows) ps)), Some e).
+Proof. exact TraceFileFacts.file_malformed_prefix. Qed.
+Print Assumptions C13_file_malformed_prefix.
+
+(* the replay of a refused file, any row order, any rounding. [delivered] = the arrival batches WorkloadTrace receives.
+   None: the constructor raises. Otherwise the calls 0..T-1 return exactly what they return on the well-formed prefix
+   alone, and call T - the call in which the prefix alone hands out the LAST delivered batch - raises the refusal of
+   the file (the look-ahead reaches the lost batch); if no call of the run hands that batch out (T = n) the run ends
+   without an exception *)
+Theorem C13_file_malformed_replay : forall (rnd : Q -> Q) tps n rows e, read_rows_c rows = inl e ->
+  let good := fst (file_replay_with rnd tps n (good_prefix rows)) in
+  let delivered := fst (lazy_batches rows) in
+  match delivered with
+  | [] => file_replay_with rnd tps n rows = ([], Some e) /\ file_refusal_at rnd tps n rows = Some AtConstruction
+  | _ :: _ =>
+      exists T, T <= n /\ fst (file_replay_with rnd tps n rows) = firstn T good /\
+        (T = n -> snd (file_replay_with rnd tps n rows) = None /\ file_refusal_at rnd tps n rows = None) /\
+        (T < n -> snd (file_replay_with rnd tps n rows) = Some e /\
+                  file_refusal_at rnd tps n rows = Some (AtTick T) /\
+                  forall x, In x (last delivered []) -> In x (nth T good []))
+  end.
+Proof. exact TraceFileFacts.file_malformed_replay. Qed.
+Print Assumptions C13_file_malformed_replay.
+
+(* rows of the prefix in arrival order: the call that raises is the tick (C13_float_tick) of the last batch before the
+   lost one *)
+Theorem C13_file_malformed_tick : forall tps n rows e ps, (0 < tps)%Z ->
+  read_rows_c rows = inl e -> read_rows_c (good_prefix rows) = inr ps -> StronglySorted Qle (map pm_arr ps) ->
+  forall T, file_refusal_at rnd64 tps n rows = Some (AtTick T) ->
+    T < n /\ forall x, In x (last (fst (lazy_batches rows)) []) -> file_tick rnd64 tps x = Z.of_nat T.
+Proof. exact TraceFileFacts.file_malformed_tick. Qed.
+Print Assumptions C13_file_malformed_tick.
+
+Theorem C13_file_malformed_tick_any_rounding : forall (rnd : Q -> Q),
+  (forall x y, (x <= y)%Q -> (rnd x <= rnd y)%Q) ->
+  (forall x, (Qabs (rnd x - x) <= Qabs x * (1 # 9007199254740992))%Q) ->
+  forall tps, (0 < tps)%Z -> forall n rows e ps,
+  read_rows_c rows = inl e -> read_rows_c (good_prefix rows) = inr ps -> StronglySorted Qle (map pm_arr ps) ->
+  forall T, file_refusal_at rnd tps n rows = Some (AtTick T) ->
+    T < n /\ forall x, In x (last (fst (lazy_batches rows)) []) -> file_tick rnd tps x = Z.of_nat T.
+Proof. exact TraceFileFacts.file_malformed_tick_any_rounding. Qed.
+Print Assumptions C13_file_malformed_tick_any_rounding.
+
+(* never silently: as soon as the prefix alone would have handed out more than the batches before the last
+   delivered one, the replay of the file has raised *)
+Theorem C13_file_malformed_never_silent : forall (rnd : Q -> Q) tps n rows e, read_rows_c rows = inl e ->
+  fst (lazy_batches rows) <> [] ->
+  length (concat (removelast (fst (lazy_batches rows)))) <
+    length (concat (fst (file_replay_with rnd tps n (good_prefix rows)))) ->
+  snd (file_replay_with rnd tps n rows) = Some e.
+Proof. exact TraceFileFacts.file_malformed_never_silent. Qed.
+Print Assumptions C13_file_malformed_never_silent.
+
+(* (c) what never reaches the simulator, however long the run: the well-formed pipelines of the file are, in file
+   order, what the calls returned, then [mid] (not yet due, or dropped with the frame of the raising call), then the
+   last batch WorkloadTrace received, then the batch lost inside batch_by_arrival *)
+Theorem C13_file_malformed_never_delivered : forall (rnd : Q -> Q) tps n rows e, read_rows_c rows = inl e ->
+  exists ps mid, read_rows_c (good_prefix rows) = inr ps /\
+    let l := file_pipelines (good_prefix rows) ps in
+    l = concat (fst (file_replay_with rnd tps n rows)) ++ mid ++
+        last (fst (lazy_batches rows)) [] ++ last (arrival_groups l) [].
+Proof. exact TraceFileFacts.file_malformed_never_delivered. Qed.
+Print Assumptions C13_file_malformed_never_delivered.
+
+(* Non-vacuity. [six]: one-operator pipelines p0..p5 arriving at 0, 0.07, 0.07, 0.3, 1, 1 (the doubles), 100 ticks/s,
+   32 calls: p0 in tick 0, p1 and p2 in tick 8 (F7: the decimal 0.07 asks for tick 7), p3 in tick 30; it is
+   C13's replay of the arrival column *)
+Example C13_file_example_good :
+  FileExamples.good32 =
+    (repeat [] 0 ++ [[(0, LazyExamples.at_ 0%Q)]] ++ repeat [] 7 ++
+     [[(1, LazyExamples.at_ FileExamples.a007); (2, LazyExamples.at_ FileExamples.a007)]] ++ repeat [] 21 ++
+     [[(3, LazyExamples.at_ FileExamples.a03)]] ++ repeat [] 1, None) /\
+  map (select (file_pipelines FileExamples.six
+         [LazyExamples.at_ 0%Q; LazyExamples.at_ FileExamples.a007; LazyExamples.at_ FileExamples.a007;
+          LazyExamples.at_ FileExamples.a03; LazyExamples.at_ 1%Q; LazyExamples.at_ 1%Q]))
+      (replay rnd64 100 [0%Q; FileExamples.a007; FileExamples.a007; FileExamples.a03; 1%Q; 1%Q] 32)
+    = fst FileExamples.good32 /\
+  file_refusal_at rnd64 100 32 FileExamples.six = None.
+Proof. exact FileExamples.ex_good. Qed.
+
+(* [six_bad]: p5 has an unknown scaling law. The batch of arrival 1 (p4) is lost inside batch_by_arrival, the batch of
+   arrival 0.3 (p3) is the last one WorkloadTrace receives: calls 0..29 return what the good file returns, call 30 -
+   the tick of p3 - raises, p3 is never returned; a run of 20 calls ends without an exception *)
+Example C13_file_example_bad :
+  read_rows_c FileExamples.six_bad = inl RUnknownLaw /\
+  good_prefix FileExamples.six_bad = firstn 5 FileExamples.six /\
+  fst (lazy_batches FileExamples.six_bad) =
+    [[(0, LazyExamples.at_ 0%Q)];
+     [(1, LazyExamples.at_ FileExamples.a007); (2, LazyExamples.at_ FileExamples.a007)];
+     [(3, LazyExamples.at_ FileExamples.a03)]] /\
+  FileExamples.bad32 = (firstn 30 (fst FileExamples.good32), Some RUnknownLaw) /\
+  file_refusal_at rnd64 100 32 FileExamples.six_bad = Some (AtTick 30) /\
+  file_tick rnd64 100 (3, LazyExamples.at_ FileExamples.a03) = 30%Z /\
+  FileExamples.bad20 = (firstn 20 (fst FileExamples.good32), None) /\
+  file_refusal_at rnd64 100 20 FileExamples.six_bad = None.
+Proof. exact FileExamples.ex_bad. Qed.
+
+(* the first pipeline malformed: the constructor raises *)
+Example C13_file_example_bad_first :
+  file_replay 100 32 FileExamples.six_bad0 = ([], Some RUnknownLaw) /\
+  file_refusal_at rnd64 100 32 FileExamples.six_bad0 = Some AtConstruction /\
+  good_prefix FileExamples.six_bad0 = [].
+Proof. exact FileExamples.ex_bad0. Qed.
+
+(* the hypotheses of the file theorems hold of [six] *)
+Example C13_file_example_hyps :
+  read_rows_c FileExamples.six =
+    inr [LazyExamples.at_ 0%Q; LazyExamples.at_ FileExamples.a007; LazyExamples.at_ FileExamples.a007;
+         LazyExamples.at_ FileExamples.a03; LazyExamples.at_ 1%Q; LazyExamples.at_ 1%Q] /\
+  StronglySorted Qle (map pm_arr
+        [LazyExamples.at_ 0%Q; LazyExamples.at_ FileExamples.a007; LazyExamples.at_ FileExamples.a007;
+         LazyExamples.at_ FileExamples.a03; LazyExamples.at_ 1%Q; LazyExamples.at_ 1%Q]).
+Proof. exact FileExamples.ex_hyps. Qed.
